@@ -2,8 +2,8 @@ SPECIFICATION Spec
 CONSTANTS
   Accts = {"A1", "A2"}
   BankNames = {"B1", "B2"}
-  Amounts = {1, 99, 100, 1000003}
-  Ticks = {1, 3600, 31536000}
+  Amounts = {1, 1000003}
+  Ticks = {3600, 31536000}
   LiqTriples <- NoTuples
   Prices <- NoTuples
   BkCases <- NoTuples
